@@ -138,6 +138,8 @@ func (mc *machine) newTree(root common.Hash) {
 func (mc *machine) release() {
 	for _, tr := range mc.allSnaps {
 		tr.VerifReleaseCache()
+		// a finished generator goroutine waits for an abort request for ever; Disable sends one (cleanup only)
+		ev.Try(func() { tr.Disable() })
 	}
 }
 
@@ -298,7 +300,10 @@ func (mc *machine) mut(o op) {
 
 func (mc *machine) commit(o op) {
 	if mc.withSnaps {
-		// real chains never return to an earlier state root (the snapshot tree is keyed by root): make roots unique
+		// Real chains never return to an earlier state root (nonces only grow) and the snapshot tree is keyed by root:
+		// committing R0 -> R1 -> R0 links a layer below itself and Tree.Cap then recurses until the stack overflows
+		// (seen when this bump was switched off; same in upstream). Unique roots are a caller invariant, so the
+		// generator keeps them unique with a block-counter account.
 		mc.blockNo++
 		mc.mut(op{k: opSetNonce, a: NA, n: mc.blockNo})
 	}
@@ -372,7 +377,13 @@ func (mc *machine) readback(root common.Hash, o op) {
 			mc.violation(key+"."+f, "state.New(%x) %s does not return what was committed: %s", root, what, d)
 		}
 	}
-	cmp(mc.openOn(root, mc.db, nil), "readback.trie", "through the trie")
+	rt := mc.openOn(root, mc.db, nil)
+	cmp(rt, "readback.trie", "through the trie")
+	var pmsg string
+	mc.guard(func() { pmsg = checkProofs(rt, root, &mc.m, int(mc.blockNo+uint64(mc.st.commits))%NS) })
+	if pmsg != "" {
+		mc.violation("readback.proof", "state.New(%x): %s", root, pmsg)
+	}
 	walkDB := mc.db
 	if o.flush {
 		fdb := state.NewDatabase(mc.disk)
@@ -403,6 +414,10 @@ func (mc *machine) readback(root common.Hash, o op) {
 		// node restart: everything in memory is gone, only the disk survives
 		mc.db = walkDB
 		if mc.snaps != nil {
+			// two snapshot trees must not share one disk: the copies left behind still read through the old tree, whose
+			// disk records the rebuild below replaces — judge them now and let them go
+			mc.checkFrozen()
+			mc.frozen = nil
 			mc.newTree(root) // no journal was written: the tree is regenerated from the flushed trie
 			cmp(mc.openOn(root, mc.db, mc.snaps), "readback.snapshot-rebuilt", "through a snapshot tree rebuilt after restart")
 		}
@@ -806,6 +821,11 @@ func TestStateOverride(t *testing.T) {
 	rapid.Check(t, func(t *rapid.T) {
 		mc := newMachine(t, uni(t, 10, "snaps") < 4, false, false)
 		runCase(t, mc, func() {
+			for a := 0; a < NA; a++ {
+				if uni(t, 4, "live") != 0 { // non-empty accounts survive Commit(true) together with their storage
+					mc.exec(op{k: opSetNonce, a: a, n: 1})
+				}
+			}
 			npre := 1 + uni(t, 10, "npre")
 			for i := 0; i < npre; i++ {
 				o := genMut(t, &mc.m)
